@@ -17,7 +17,7 @@ open Pool.Batch
 theorem commit_spec (a c : Nat) :
     fundingIsTaproot (determineCommitmentType a c) = impliesTaprootFunding a c := by
   unfold fundingIsTaproot determineCommitmentType impliesTaprootFunding chanScriptEnforced chanSimpleTaproot
-  simp only [Pool.Gen.commitCases, Pool.Gen.commitDefault, Pool.Gen.taprootFundingCommitTypes,
+  simp only [Pool.Gen.Batch.commitCases, Pool.Gen.Batch.commitDefault, Pool.Gen.Batch.taprootFundingCommitTypes,
     determineCommitmentType.go]
   by_cases h1 : a = 1 <;> by_cases h2 : c = 1 <;> by_cases h3 : a = 2 <;> by_cases h4 : c = 2 <;>
     simp [h1, h2, h3, h4] <;> omega
@@ -25,7 +25,7 @@ theorem commit_spec (a c : Nat) :
 /-- the commitment type does not depend on which side is "ours" -/
 theorem commit_symmetric (a c : Nat) : determineCommitmentType a c = determineCommitmentType c a := by
   unfold determineCommitmentType
-  simp only [Pool.Gen.commitCases, Pool.Gen.commitDefault, determineCommitmentType.go]
+  simp only [Pool.Gen.Batch.commitCases, Pool.Gen.Batch.commitDefault, determineCommitmentType.go]
   by_cases h1 : a = 1 <;> by_cases h2 : c = 1 <;> by_cases h3 : a = 2 <;> by_cases h4 : c = 2 <;>
     simp [h1, h2, h3, h4]
 
